@@ -791,6 +791,15 @@ def rule_nbr_use(ctx, tu):
                 "the direction loop does not visit all six directions (0..5 by one): exchanges with the skipped neighbours rely on "
                 "the other cell's pass, which a periodic wrap (partner with a larger index) breaks")
     ctx.need(nd >= 4, R, "only %d direction loops over the neighbour table found" % nd)
+    # ... and inside such a loop the only test that excludes a (cell, direction) pair is the table's own `-1`: a second opinion
+    # (a pairwise neighbour predicate, a comparison of two entries) disagrees with the table where two cells touch through two
+    # faces or an axis is one cell long
+    from . import c01 as _c01
+    for q_, fld in (("SimulationAlgorithm3DBase::Build_mesh_kd", "mesh_kd"),):
+        g_ = tu.fn(q_)
+        sites = [st_.node for st_ in cxa.all_stores(g_.body) if st_.base and st_.base[1] == fld and cxfe.subscript(st_.target) is not None]
+        ctx.need(sites, R, "%s: stores to %s not found" % (q_, fld))
+        _c01.dir_skips(ctx, R, g_, sites, _c01.nbr_locals(g_), also=(r"^D\w*(\[[^\]]*\])? (==|!=) 0$", r"^0 (==|!=) D\w*"))
     n = sum(1 for r in I.subs if r["status"] == "ok" and r.get("layout") and any(k[0] in ("cell", "cell?") for k in r["layout"]))
     ctx.ok(R, None, "engine", "%d subscripts address a cell through a loop index, a parameter or a neighbour-table entry" % n,
            "no cell index is computed by offset arithmetic")
